@@ -43,7 +43,9 @@ type crashRun struct {
 	e      *Env
 	log    []vshim.Rec
 	models []*Model // models[i] = state after op i
-	opOf   func(tag string) int
+	// versions[i][uuid] = every value op i wrote for that uuid (batches may write one uuid several times)
+	versions []map[string][]string
+	opOf     func(tag string) int
 }
 
 func opIndex(tag string) int {
@@ -75,6 +77,12 @@ func recordHistory(t TB, prog *Program) *crashRun {
 			}
 			vshim.WaitParked(guardReal)
 			cr.models = append(cr.models, e.m.Clone())
+			if op.Op == "many" {
+				cr.versions = append(cr.versions, e.lastVersions)
+			} else {
+				cr.versions = append(cr.versions, nil)
+			}
+			e.lastVersions = nil
 		},
 	}
 	e := NewEnv(t, prog, opts)
@@ -155,9 +163,47 @@ func (cr *crashRun) checkCut(k, torn int, st *Stats) (excluded bool) {
 			e.failf("%s: unexpected object file %s", where, wf.Name)
 		}
 	}
+	// (the in-flight call replaced the file of an object that existed when it started)
+	updated := false
+	existing, atStart := map[string]bool{}, map[string]bool{}
+	started := false
+	for i := 0; i < k; i++ {
+		rec := cr.log[i]
+		if !started && rec.Tag == cr.log[k-1].Tag {
+			started = true
+			for p := range existing {
+				atStart[p] = true
+			}
+		}
+		target := ""
+		switch rec.Kind {
+		case "rename":
+			target = rec.To
+		case "open":
+			target = rec.Path
+		case "remove":
+			delete(existing, rec.Path)
+		}
+		if target != "" && !strings.HasSuffix(target, "schema.json") && !strings.HasSuffix(target, ".tmp") {
+			if started && atStart[target] {
+				updated = true
+			}
+			existing[target] = true
+		}
+	}
 	if sod.IsIndexCorrupted(first) {
 		st.Add("cuts_detected_as_corrupted", 1)
 		if err := db.Repair(&Doc{}); err != nil {
+			// the stale entries of the two known findings can also make Repair refuse a
+			// new file for uniqueness; nothing else is tolerated
+			if sod.IsUnique(err) && knownActive("stale-index-update-window") && inside && updated {
+				st.Exclude("stale-index-update-window")
+				return true
+			}
+			if sod.IsUnique(err) && knownActive("async-index-committed-before-objects") && e.cfg.Async != nil {
+				st.Exclude("async-index-committed-before-objects")
+				return true
+			}
 			e.failf("%s: corruption was reported, but Repair fails: %v", where, err)
 		}
 		if err := db.Control(); err != nil {
@@ -179,36 +225,15 @@ func (cr *crashRun) checkCut(k, torn int, st *Stats) (excluded bool) {
 		}
 		// known finding: an update of an existing object rewrites its file before the
 		// schema is committed; a crash in between leaves a stale index entry unnoticed
-		// (the in-flight call replaced the file of an object that existed when it started)
-		updated := false
-		existing, atStart := map[string]bool{}, map[string]bool{}
-		started := false
-		for i := 0; i < k; i++ {
-			rec := cr.log[i]
-			if !started && rec.Tag == cr.log[k-1].Tag {
-				started = true
-				for p := range existing {
-					atStart[p] = true
-				}
-			}
-			target := ""
-			switch rec.Kind {
-			case "rename":
-				target = rec.To
-			case "open":
-				target = rec.Path
-			case "remove":
-				delete(existing, rec.Path)
-			}
-			if target != "" && !strings.HasSuffix(target, "schema.json") && !strings.HasSuffix(target, ".tmp") {
-				if started && atStart[target] {
-					updated = true
-				}
-				existing[target] = true
-			}
-		}
 		if knownActive("stale-index-update-window") && inside && onlyIndex && updated {
 			st.Exclude("stale-index-update-window")
+			return true
+		}
+		// known finding: with async writes, calls that commit the schema (Delete, DeleteAll,
+		// search-delete, Commit, Create) persist the in-memory index while updates of
+		// stored objects are still pending: the committed index is ahead of the files
+		if knownActive("async-index-committed-before-objects") && e.cfg.Async != nil && onlyIndex {
+			st.Exclude("async-index-committed-before-objects")
 			return true
 		}
 		if len(d) > 5 {
@@ -239,6 +264,14 @@ func (cr *crashRun) checkCut(k, torn int, st *Stats) (excluded bool) {
 			a, aok := after.objs[id]
 			isB := fok == bok && (!fok || canon(f) == canon(b))
 			isA := fok == aok && (!fok || canon(f) == canon(a))
+			if !isB && !isA && fok && inside && j >= 0 && j < len(cr.versions) {
+				// a batch may write several members with one uuid: each is a complete object
+				for _, v := range cr.versions[j][id] {
+					if v == canon(f) {
+						isA = true
+					}
+				}
+			}
 			if !isB && !isA {
 				fv, bv, av := "absent", "absent", "absent"
 				if fok {
@@ -262,10 +295,10 @@ func c05Profile() *Profile {
 		Property: "C05", MaxOps: pick(6, 10),
 		// no InsertOrUpdateBulk: it is a sequence of InsertOrUpdateMany calls (covered), and
 		// the before/after states of the oracle are per API call
-		W: map[string]int{"insert": 8, "update": 6, "delete": 3, "many": 3, "searchDelete": 1, "deleteAll": 1, "resurrect": 1, "tick": 3},
+		W:          map[string]int{"insert": 8, "update": 6, "delete": 3, "many": 3, "searchDelete": 1, "deleteAll": 1, "resurrect": 1, "tick": 3},
 		AllowCache: true, AllowCompress: true, AllowAsync: true, AllowLower: true,
 		MinIndexed: 1, MaxIndexed: 3, MaxUnique: 1, CasePaths: 0,
-		TinyBias: 60, BigBias: 10, HookBias: 0, RichShape: 5, MaxLeaves: 1,
+		TinyBias: 60, BigBias: 10, HookBias: 0, RichShape: 5, MaxLeaves: 1, NoCopyItems: true,
 	}
 }
 
